@@ -22,7 +22,9 @@ EXPLANATION = (
     "visits children first, merges own and children's known locations and runs before every pass that reports positions; "
     "R20.4 the redeclaration diagnostic receives (name, new location, existing location) in the order of its placeholders; "
     "R20.5 the line table / lookup / formatting idioms: line starts accumulate len(line)+1 over split('\\n'), lookup is "
-    "bisect_right-1, columns are offset - line start + 1 with the end column taken against the END line's start."
+    "bisect_right-1, columns are offset - line start + 1 with the end column taken against the END line's start (the line "
+    "table is folded over sample texts, whatever way it is computed). R20.2 also: Parse maps and parses the caller's text, "
+    "not a re-bound one."
 )
 NOT_DECIDED = "the line/column arithmetic for every text and offset as values (R20.5 checks the idioms' shape, not their evaluation)"
 ASSUMPTIONS = ["1-based line:column with end-exclusive end column is the display convention (stated in Location.__str__'s own comment)"]
